@@ -2,145 +2,13 @@
     reconstructs its bits.  Statements are about the generated [Gen_split.ns_<type>_cut/safe_cut]. *)
 
 Require Import ZArith Lia Bool List.
-Require Import LV.Base.CInt LV.Proofs.C25_Bits LV.Gen.Gen_split.
+Require Import LV.Base.CInt LV.Proofs.C25_Bits LV.Proofs.C25_Fields LV.Gen.Gen_split.
 Import ListNotations.
 Local Open Scope Z_scope.
 
-(** [field w n s c]: the c bits starting at bit s of the w-bit two's complement pattern of n. *)
-Definition field (w n s c : Z) : Z := (n mod 2 ^ w) / 2 ^ s mod 2 ^ c.
-
-(** Concatenation of (value, width) fields, first field in the low bits. *)
-Fixpoint joinf (l : list (Z * Z)) : Z :=
-  match l with [] => 0 | (v, c) :: r => v + 2 ^ c * joinf r end.
-
-Fixpoint zsum (l : list Z) : Z := match l with [] => 0 | a :: r => a + zsum r end.
-
-Lemma field_range w n s c : 0 <= c -> 0 <= field w n s c < 2 ^ c.
-Proof. intros. unfold field. apply Z.mod_pos_bound, pow2_pos; lia. Qed.
-
-Lemma field_join w n s c1 c2 : 0 <= s -> 0 <= c1 -> 0 <= c2 ->
-  field w n s c1 + 2 ^ c1 * field w n (s + c1) c2 = field w n s (c1 + c2).
-Proof.
-  intros Hs H1 H2. unfold field. set (N := n mod 2 ^ w).
-  assert (0 < 2 ^ s) by (apply pow2_pos; lia). assert (0 < 2 ^ c1) by (apply pow2_pos; lia).
-  assert (0 < 2 ^ c2) by (apply pow2_pos; lia).
-  rewrite (Z.pow_add_r 2 s c1), <- Z.div_div by lia.
-  rewrite (Z.pow_add_r 2 c1 c2) by lia. rewrite Z.rem_mul_r by lia. reflexivity.
-Qed.
-
-Lemma field_0 w n s : field w n s 0 = 0.
-Proof. unfold field. apply Z.mod_1_r. Qed.
-
-Lemma field_whole w n : 0 <= w -> field w n 0 w = n mod 2 ^ w.
-Proof. intros. unfold field. rewrite Z.div_1_r. apply Z.mod_mod. assert (0 < 2 ^ w) by (apply pow2_pos; lia). lia. Qed.
-
-Lemma field_of_shiftr w n s c : 0 <= s -> 0 <= c -> s + c <= w -> Z.shiftr n s mod 2 ^ c = field w n s c.
-Proof.
-  intros Hs Hc Hw. unfold field. apply Z.bits_inj'. intros i Hi.
-  destruct (Z_lt_le_dec i c).
-  - rewrite !Z.mod_pow2_bits_low by lia. rewrite <- Z.shiftr_div_pow2 by lia.
-    rewrite !Z.shiftr_spec by lia. rewrite Z.mod_pow2_bits_low by lia. reflexivity.
-  - rewrite !Z.mod_pow2_bits_high by lia. reflexivity.
-Qed.
-
-Lemma field_of_shiftr_mod W w n s c : 0 <= s -> 0 <= c <= W -> s + c <= w ->
-  (Z.shiftr n s mod 2 ^ W) mod 2 ^ c = field w n s c.
-Proof.
-  intros Hs Hc Hw. rewrite <- (field_of_shiftr w n s c) by lia.
-  apply Z.bits_inj'. intros i Hi. destruct (Z_lt_le_dec i c).
-  - rewrite !Z.mod_pow2_bits_low by lia. reflexivity.
-  - rewrite !Z.mod_pow2_bits_high by lia. reflexivity.
-Qed.
-
-Lemma land_mask a c : 0 <= c -> Z.land a (2 ^ c - 1) = a mod 2 ^ c.
-Proof. intros. replace (2 ^ c - 1) with (Z.ones c) by (rewrite Z.ones_equiv; lia). apply Z.land_ones. lia. Qed.
-
-(** ** Sequences of cuts, for any splitter whose [cut] has the field semantics *)
-
-Section Sequences.
-  Variable St : Type.
-  Variable w : Z.
-  Variable mk : Z -> Z -> St.
-  Variable okn : Z -> Prop.
-  Variable cutf : St -> Z -> option (Z * St).
-  Variable safef : St -> Z -> option (Z * St).
-  Hypothesis Hw : 0 < w.
-
-  Fixpoint run (f : St -> Z -> option (Z * St)) (st : St) (cs : list Z) : option (list Z * St) :=
-    match cs with
-    | [] => Some ([], st)
-    | c :: r =>
-        match f st c with
-        | Some (v, st') => match run f st' r with Some (vs, st'') => Some (v :: vs, st'') | None => None end
-        | None => None
-        end
-    end.
-
-  (** legal width for [cut]: [is_correct(count)] and at least one bit *)
-  Definition legal (c : Z) : Prop := 1 <= c < w.
-
-  Hypothesis Hcut : forall n s c, okn n -> 0 <= s -> legal c -> s + c <= w ->
-    cutf (mk n s) c = Some (field w n s c, mk n (s + c)).
-
-  Lemma run_cut_spec cs : forall n s, okn n -> 0 <= s -> Forall legal cs -> s + zsum cs <= w ->
-    exists vs, run cutf (mk n s) cs = Some (vs, mk n (s + zsum cs)) /\ length vs = length cs /\
-               joinf (combine vs cs) = field w n s (zsum cs).
-  Proof.
-    induction cs as [|c r IH]; intros n s Hn Hs Hl Hsum.
-    - exists []. cbn. rewrite Z.add_0_r, field_0. auto.
-    - inversion_clear Hl as [|? ? Hc Hr]. cbn [zsum] in *.
-      assert (0 <= zsum r). { clear - Hr. induction Hr; cbn [zsum]; unfold legal in *; lia. }
-      unfold legal in Hc.
-      destruct (IH n (s + c) Hn ltac:(lia) Hr ltac:(lia)) as [vs [E [L J]]].
-      exists (field w n s c :: vs). cbn [run]. rewrite Hcut by (unfold legal; auto; lia). rewrite E.
-      split; [f_equal; f_equal; f_equal; lia|]. split; [cbn; lia|].
-      cbn [combine joinf]. rewrite J. apply field_join; lia.
-  Qed.
-
-  (** cut_sequence_reconstructs: every legal width sequence summing to the width of the number *)
-  Theorem cut_sequence_reconstructs_gen n cs : okn n -> Forall legal cs -> zsum cs = w ->
-    exists vs, run cutf (mk n 0) cs = Some (vs, mk n w) /\ length vs = length cs /\
-               joinf (combine vs cs) = n mod 2 ^ w.
-  Proof.
-    intros Hn Hl Hs. destruct (run_cut_spec cs n 0 Hn ltac:(lia) Hl ltac:(lia)) as [vs [E [L J]]].
-    exists vs. rewrite Z.add_0_l, Hs in E. rewrite Hs, field_whole in J by lia. auto.
-  Qed.
-
-  (** [safe_cut]: the count is clipped to what is left; at end-of-stream it returns 0 *)
-  Hypothesis Hsafe : forall n s c, okn n -> 0 <= s <= w -> legal c ->
-    safef (mk n s) c = Some (field w n s (Z.min c (w - s)), mk n (s + Z.min c (w - s))).
-
-  Fixpoint clip (s : Z) (cs : list Z) : list Z :=
-    match cs with [] => [] | c :: r => Z.min c (w - s) :: clip (s + Z.min c (w - s)) r end.
-
-  Lemma run_safe_spec cs : forall n s, okn n -> 0 <= s <= w -> Forall legal cs ->
-    exists vs, run safef (mk n s) cs = Some (vs, mk n (s + zsum (clip s cs))) /\ length vs = length cs /\
-               joinf (combine vs (clip s cs)) = field w n s (zsum (clip s cs)) /\
-               s + zsum (clip s cs) = Z.min w (s + zsum cs).
-  Proof.
-    induction cs as [|c r IH]; intros n s Hn Hs Hl.
-    - exists []. cbn [run clip zsum combine joinf length]. rewrite !Z.add_0_r, field_0. repeat split; auto. lia.
-    - inversion_clear Hl as [|? ? Hc Hr]. unfold legal in Hc. cbn [zsum clip] in *.
-      set (c' := Z.min c (w - s)).
-      assert (0 <= zsum r). { clear - Hr. induction Hr; cbn [zsum]; unfold legal in *; lia. }
-      destruct (IH n (s + c') Hn ltac:(unfold c'; lia) Hr) as [vs [E [L [J M]]]].
-      exists (field w n s c' :: vs). cbn [run]. rewrite Hsafe by (unfold legal; auto; lia). fold c'. rewrite E.
-      split; [f_equal; f_equal; f_equal; lia|]. split; [cbn; lia|]. split.
-      + cbn [combine joinf]. rewrite J.
-        assert (0 <= zsum (clip (s + c') r)) by (unfold c' in *; lia).
-        apply field_join; unfold c' in *; lia.
-      + unfold c' in *. lia.
-  Qed.
-
-  Theorem safe_cut_sequence_reconstructs_gen n cs : okn n -> Forall legal cs -> w <= zsum cs ->
-    exists vs, run safef (mk n 0) cs = Some (vs, mk n w) /\ length vs = length cs /\
-               joinf (combine vs (clip 0 cs)) = n mod 2 ^ w.
-  Proof.
-    intros Hn Hl Hs. destruct (run_safe_spec cs n 0 Hn ltac:(lia) Hl) as [vs [E [L [J M]]]].
-    rewrite Z.add_0_l in *. assert (Z0 : zsum (clip 0 cs) = w) by lia.
-    exists vs. rewrite Z0 in *. rewrite field_whole in J by lia. auto.
-  Qed.
-End Sequences.
+(** legal width for [number_splitter<Int>::cut]: [is_correct(count)] and at least one bit *)
+Definition legal (w c : Z) : Prop := 1 <= c < w.
+Definition anypos (s : Z) : Prop := True.
 
 (** ** The eight instantiations (statements and proofs generated per type by the same tactic) *)
 
@@ -228,16 +96,16 @@ Theorem ns_i16_cut_sequence n cs : ok_i16 n -> Forall (legal 16) cs -> zsum cs =
   exists vs, run (ns_i16) ns_i16_cut (mk_ns_i16 n 0) cs = Some (vs, mk_ns_i16 n 16) /\ length vs = length cs /\
              joinf (combine vs cs) = n mod 2 ^ 16.
 Proof.
-  apply (cut_sequence_reconstructs_gen ns_i16 16 mk_ns_i16 ok_i16 ns_i16_cut); [lia|].
-  intros n0 s c Hn Hs Hc Hsc. apply ns_i16_cut_spec; auto.
+  intros Hn Hl Hs. apply (cut_sequence_reconstructs_gen ns_i16 16 mk_ns_i16 ok_i16 (legal 16) anypos ns_i16_cut); auto; try exact I; unfold legal; try lia.
+  intros n0 s c Hn0 _ Hs0 Hc Hsc. apply ns_i16_cut_spec; auto.
 Qed.
 
 Theorem ns_i16_safe_cut_sequence n cs : ok_i16 n -> Forall (legal 16) cs -> 16 <= zsum cs ->
   exists vs, run (ns_i16) ns_i16_safe_cut (mk_ns_i16 n 0) cs = Some (vs, mk_ns_i16 n 16) /\ length vs = length cs /\
              joinf (combine vs (clip 16 0 cs)) = n mod 2 ^ 16.
 Proof.
-  apply (safe_cut_sequence_reconstructs_gen ns_i16 16 mk_ns_i16 ok_i16 ns_i16_safe_cut); [lia|].
-  intros n0 s c Hn Hs Hc. apply ns_i16_safe_cut_spec; auto.
+  intros Hn Hl Hs. apply (safe_cut_sequence_reconstructs_gen ns_i16 16 mk_ns_i16 ok_i16 (legal 16) anypos ns_i16_safe_cut); auto; try exact I; unfold legal; try lia.
+  intros n0 s c Hn0 _ Hs0 Hc. apply ns_i16_safe_cut_spec; auto.
 Qed.
 
 Definition ok_u16 (n : Z) : Prop := 0 <= n < 2 ^ 16.
@@ -273,16 +141,16 @@ Theorem ns_u16_cut_sequence n cs : ok_u16 n -> Forall (legal 16) cs -> zsum cs =
   exists vs, run (ns_u16) ns_u16_cut (mk_ns_u16 n 0) cs = Some (vs, mk_ns_u16 n 16) /\ length vs = length cs /\
              joinf (combine vs cs) = n mod 2 ^ 16.
 Proof.
-  apply (cut_sequence_reconstructs_gen ns_u16 16 mk_ns_u16 ok_u16 ns_u16_cut); [lia|].
-  intros n0 s c Hn Hs Hc Hsc. apply ns_u16_cut_spec; auto.
+  intros Hn Hl Hs. apply (cut_sequence_reconstructs_gen ns_u16 16 mk_ns_u16 ok_u16 (legal 16) anypos ns_u16_cut); auto; try exact I; unfold legal; try lia.
+  intros n0 s c Hn0 _ Hs0 Hc Hsc. apply ns_u16_cut_spec; auto.
 Qed.
 
 Theorem ns_u16_safe_cut_sequence n cs : ok_u16 n -> Forall (legal 16) cs -> 16 <= zsum cs ->
   exists vs, run (ns_u16) ns_u16_safe_cut (mk_ns_u16 n 0) cs = Some (vs, mk_ns_u16 n 16) /\ length vs = length cs /\
              joinf (combine vs (clip 16 0 cs)) = n mod 2 ^ 16.
 Proof.
-  apply (safe_cut_sequence_reconstructs_gen ns_u16 16 mk_ns_u16 ok_u16 ns_u16_safe_cut); [lia|].
-  intros n0 s c Hn Hs Hc. apply ns_u16_safe_cut_spec; auto.
+  intros Hn Hl Hs. apply (safe_cut_sequence_reconstructs_gen ns_u16 16 mk_ns_u16 ok_u16 (legal 16) anypos ns_u16_safe_cut); auto; try exact I; unfold legal; try lia.
+  intros n0 s c Hn0 _ Hs0 Hc. apply ns_u16_safe_cut_spec; auto.
 Qed.
 
 Definition ok_i32 (n : Z) : Prop := - 2 ^ 31 <= n < 2 ^ 31.
@@ -318,16 +186,16 @@ Theorem ns_i32_cut_sequence n cs : ok_i32 n -> Forall (legal 32) cs -> zsum cs =
   exists vs, run (ns_i32) ns_i32_cut (mk_ns_i32 n 0) cs = Some (vs, mk_ns_i32 n 32) /\ length vs = length cs /\
              joinf (combine vs cs) = n mod 2 ^ 32.
 Proof.
-  apply (cut_sequence_reconstructs_gen ns_i32 32 mk_ns_i32 ok_i32 ns_i32_cut); [lia|].
-  intros n0 s c Hn Hs Hc Hsc. apply ns_i32_cut_spec; auto.
+  intros Hn Hl Hs. apply (cut_sequence_reconstructs_gen ns_i32 32 mk_ns_i32 ok_i32 (legal 32) anypos ns_i32_cut); auto; try exact I; unfold legal; try lia.
+  intros n0 s c Hn0 _ Hs0 Hc Hsc. apply ns_i32_cut_spec; auto.
 Qed.
 
 Theorem ns_i32_safe_cut_sequence n cs : ok_i32 n -> Forall (legal 32) cs -> 32 <= zsum cs ->
   exists vs, run (ns_i32) ns_i32_safe_cut (mk_ns_i32 n 0) cs = Some (vs, mk_ns_i32 n 32) /\ length vs = length cs /\
              joinf (combine vs (clip 32 0 cs)) = n mod 2 ^ 32.
 Proof.
-  apply (safe_cut_sequence_reconstructs_gen ns_i32 32 mk_ns_i32 ok_i32 ns_i32_safe_cut); [lia|].
-  intros n0 s c Hn Hs Hc. apply ns_i32_safe_cut_spec; auto.
+  intros Hn Hl Hs. apply (safe_cut_sequence_reconstructs_gen ns_i32 32 mk_ns_i32 ok_i32 (legal 32) anypos ns_i32_safe_cut); auto; try exact I; unfold legal; try lia.
+  intros n0 s c Hn0 _ Hs0 Hc. apply ns_i32_safe_cut_spec; auto.
 Qed.
 
 Definition ok_u32 (n : Z) : Prop := 0 <= n < 2 ^ 32.
@@ -362,16 +230,16 @@ Theorem ns_u32_cut_sequence n cs : ok_u32 n -> Forall (legal 32) cs -> zsum cs =
   exists vs, run (ns_u32) ns_u32_cut (mk_ns_u32 n 0) cs = Some (vs, mk_ns_u32 n 32) /\ length vs = length cs /\
              joinf (combine vs cs) = n mod 2 ^ 32.
 Proof.
-  apply (cut_sequence_reconstructs_gen ns_u32 32 mk_ns_u32 ok_u32 ns_u32_cut); [lia|].
-  intros n0 s c Hn Hs Hc Hsc. apply ns_u32_cut_spec; auto.
+  intros Hn Hl Hs. apply (cut_sequence_reconstructs_gen ns_u32 32 mk_ns_u32 ok_u32 (legal 32) anypos ns_u32_cut); auto; try exact I; unfold legal; try lia.
+  intros n0 s c Hn0 _ Hs0 Hc Hsc. apply ns_u32_cut_spec; auto.
 Qed.
 
 Theorem ns_u32_safe_cut_sequence n cs : ok_u32 n -> Forall (legal 32) cs -> 32 <= zsum cs ->
   exists vs, run (ns_u32) ns_u32_safe_cut (mk_ns_u32 n 0) cs = Some (vs, mk_ns_u32 n 32) /\ length vs = length cs /\
              joinf (combine vs (clip 32 0 cs)) = n mod 2 ^ 32.
 Proof.
-  apply (safe_cut_sequence_reconstructs_gen ns_u32 32 mk_ns_u32 ok_u32 ns_u32_safe_cut); [lia|].
-  intros n0 s c Hn Hs Hc. apply ns_u32_safe_cut_spec; auto.
+  intros Hn Hl Hs. apply (safe_cut_sequence_reconstructs_gen ns_u32 32 mk_ns_u32 ok_u32 (legal 32) anypos ns_u32_safe_cut); auto; try exact I; unfold legal; try lia.
+  intros n0 s c Hn0 _ Hs0 Hc. apply ns_u32_safe_cut_spec; auto.
 Qed.
 
 Definition ok_i64 (n : Z) : Prop := - 2 ^ 63 <= n < 2 ^ 63.
@@ -407,16 +275,16 @@ Theorem ns_i64_cut_sequence n cs : ok_i64 n -> Forall (legal 64) cs -> zsum cs =
   exists vs, run (ns_i64) ns_i64_cut (mk_ns_i64 n 0) cs = Some (vs, mk_ns_i64 n 64) /\ length vs = length cs /\
              joinf (combine vs cs) = n mod 2 ^ 64.
 Proof.
-  apply (cut_sequence_reconstructs_gen ns_i64 64 mk_ns_i64 ok_i64 ns_i64_cut); [lia|].
-  intros n0 s c Hn Hs Hc Hsc. apply ns_i64_cut_spec; auto.
+  intros Hn Hl Hs. apply (cut_sequence_reconstructs_gen ns_i64 64 mk_ns_i64 ok_i64 (legal 64) anypos ns_i64_cut); auto; try exact I; unfold legal; try lia.
+  intros n0 s c Hn0 _ Hs0 Hc Hsc. apply ns_i64_cut_spec; auto.
 Qed.
 
 Theorem ns_i64_safe_cut_sequence n cs : ok_i64 n -> Forall (legal 64) cs -> 64 <= zsum cs ->
   exists vs, run (ns_i64) ns_i64_safe_cut (mk_ns_i64 n 0) cs = Some (vs, mk_ns_i64 n 64) /\ length vs = length cs /\
              joinf (combine vs (clip 64 0 cs)) = n mod 2 ^ 64.
 Proof.
-  apply (safe_cut_sequence_reconstructs_gen ns_i64 64 mk_ns_i64 ok_i64 ns_i64_safe_cut); [lia|].
-  intros n0 s c Hn Hs Hc. apply ns_i64_safe_cut_spec; auto.
+  intros Hn Hl Hs. apply (safe_cut_sequence_reconstructs_gen ns_i64 64 mk_ns_i64 ok_i64 (legal 64) anypos ns_i64_safe_cut); auto; try exact I; unfold legal; try lia.
+  intros n0 s c Hn0 _ Hs0 Hc. apply ns_i64_safe_cut_spec; auto.
 Qed.
 
 Definition ok_u64 (n : Z) : Prop := 0 <= n < 2 ^ 64.
@@ -451,16 +319,16 @@ Theorem ns_u64_cut_sequence n cs : ok_u64 n -> Forall (legal 64) cs -> zsum cs =
   exists vs, run (ns_u64) ns_u64_cut (mk_ns_u64 n 0) cs = Some (vs, mk_ns_u64 n 64) /\ length vs = length cs /\
              joinf (combine vs cs) = n mod 2 ^ 64.
 Proof.
-  apply (cut_sequence_reconstructs_gen ns_u64 64 mk_ns_u64 ok_u64 ns_u64_cut); [lia|].
-  intros n0 s c Hn Hs Hc Hsc. apply ns_u64_cut_spec; auto.
+  intros Hn Hl Hs. apply (cut_sequence_reconstructs_gen ns_u64 64 mk_ns_u64 ok_u64 (legal 64) anypos ns_u64_cut); auto; try exact I; unfold legal; try lia.
+  intros n0 s c Hn0 _ Hs0 Hc Hsc. apply ns_u64_cut_spec; auto.
 Qed.
 
 Theorem ns_u64_safe_cut_sequence n cs : ok_u64 n -> Forall (legal 64) cs -> 64 <= zsum cs ->
   exists vs, run (ns_u64) ns_u64_safe_cut (mk_ns_u64 n 0) cs = Some (vs, mk_ns_u64 n 64) /\ length vs = length cs /\
              joinf (combine vs (clip 64 0 cs)) = n mod 2 ^ 64.
 Proof.
-  apply (safe_cut_sequence_reconstructs_gen ns_u64 64 mk_ns_u64 ok_u64 ns_u64_safe_cut); [lia|].
-  intros n0 s c Hn Hs Hc. apply ns_u64_safe_cut_spec; auto.
+  intros Hn Hl Hs. apply (safe_cut_sequence_reconstructs_gen ns_u64 64 mk_ns_u64 ok_u64 (legal 64) anypos ns_u64_safe_cut); auto; try exact I; unfold legal; try lia.
+  intros n0 s c Hn0 _ Hs0 Hc. apply ns_u64_safe_cut_spec; auto.
 Qed.
 
 Definition ok_i64ll (n : Z) : Prop := - 2 ^ 63 <= n < 2 ^ 63.
@@ -496,16 +364,16 @@ Theorem ns_i64ll_cut_sequence n cs : ok_i64ll n -> Forall (legal 64) cs -> zsum 
   exists vs, run (ns_i64ll) ns_i64ll_cut (mk_ns_i64ll n 0) cs = Some (vs, mk_ns_i64ll n 64) /\ length vs = length cs /\
              joinf (combine vs cs) = n mod 2 ^ 64.
 Proof.
-  apply (cut_sequence_reconstructs_gen ns_i64ll 64 mk_ns_i64ll ok_i64ll ns_i64ll_cut); [lia|].
-  intros n0 s c Hn Hs Hc Hsc. apply ns_i64ll_cut_spec; auto.
+  intros Hn Hl Hs. apply (cut_sequence_reconstructs_gen ns_i64ll 64 mk_ns_i64ll ok_i64ll (legal 64) anypos ns_i64ll_cut); auto; try exact I; unfold legal; try lia.
+  intros n0 s c Hn0 _ Hs0 Hc Hsc. apply ns_i64ll_cut_spec; auto.
 Qed.
 
 Theorem ns_i64ll_safe_cut_sequence n cs : ok_i64ll n -> Forall (legal 64) cs -> 64 <= zsum cs ->
   exists vs, run (ns_i64ll) ns_i64ll_safe_cut (mk_ns_i64ll n 0) cs = Some (vs, mk_ns_i64ll n 64) /\ length vs = length cs /\
              joinf (combine vs (clip 64 0 cs)) = n mod 2 ^ 64.
 Proof.
-  apply (safe_cut_sequence_reconstructs_gen ns_i64ll 64 mk_ns_i64ll ok_i64ll ns_i64ll_safe_cut); [lia|].
-  intros n0 s c Hn Hs Hc. apply ns_i64ll_safe_cut_spec; auto.
+  intros Hn Hl Hs. apply (safe_cut_sequence_reconstructs_gen ns_i64ll 64 mk_ns_i64ll ok_i64ll (legal 64) anypos ns_i64ll_safe_cut); auto; try exact I; unfold legal; try lia.
+  intros n0 s c Hn0 _ Hs0 Hc. apply ns_i64ll_safe_cut_spec; auto.
 Qed.
 
 Definition ok_u64ll (n : Z) : Prop := 0 <= n < 2 ^ 64.
@@ -540,16 +408,16 @@ Theorem ns_u64ll_cut_sequence n cs : ok_u64ll n -> Forall (legal 64) cs -> zsum 
   exists vs, run (ns_u64ll) ns_u64ll_cut (mk_ns_u64ll n 0) cs = Some (vs, mk_ns_u64ll n 64) /\ length vs = length cs /\
              joinf (combine vs cs) = n mod 2 ^ 64.
 Proof.
-  apply (cut_sequence_reconstructs_gen ns_u64ll 64 mk_ns_u64ll ok_u64ll ns_u64ll_cut); [lia|].
-  intros n0 s c Hn Hs Hc Hsc. apply ns_u64ll_cut_spec; auto.
+  intros Hn Hl Hs. apply (cut_sequence_reconstructs_gen ns_u64ll 64 mk_ns_u64ll ok_u64ll (legal 64) anypos ns_u64ll_cut); auto; try exact I; unfold legal; try lia.
+  intros n0 s c Hn0 _ Hs0 Hc Hsc. apply ns_u64ll_cut_spec; auto.
 Qed.
 
 Theorem ns_u64ll_safe_cut_sequence n cs : ok_u64ll n -> Forall (legal 64) cs -> 64 <= zsum cs ->
   exists vs, run (ns_u64ll) ns_u64ll_safe_cut (mk_ns_u64ll n 0) cs = Some (vs, mk_ns_u64ll n 64) /\ length vs = length cs /\
              joinf (combine vs (clip 64 0 cs)) = n mod 2 ^ 64.
 Proof.
-  apply (safe_cut_sequence_reconstructs_gen ns_u64ll 64 mk_ns_u64ll ok_u64ll ns_u64ll_safe_cut); [lia|].
-  intros n0 s c Hn Hs Hc. apply ns_u64ll_safe_cut_spec; auto.
+  intros Hn Hl Hs. apply (safe_cut_sequence_reconstructs_gen ns_u64ll 64 mk_ns_u64ll ok_u64ll (legal 64) anypos ns_u64ll_safe_cut); auto; try exact I; unfold legal; try lia.
+  intros n0 s c Hn0 _ Hs0 Hc. apply ns_u64ll_safe_cut_spec; auto.
 Qed.
 
 (** ** Inputs the code does not reject: [safe_cut(count)] with [count >= width] on a fresh 32/64-bit splitter
